@@ -75,13 +75,19 @@ def compare(ws, sch, rec, item, emit):
     return {"clause": why, "observed": got, "class": {"clause": why}}
 
 
-def record_session(ws, sc, sid, idxs, mutate_after=()):
+def record_session(ws, sc, sid, idxs, mutate_after=(), one_loader=False):
+    """one_loader: every load of the session that has no overrides goes through ONE ConfigLoader object
+    (an application re-reading its configuration), otherwise each load gets a fresh loader."""
     from . import c02
+    import ZConfig.loader
     sch = loadgen.real_schema(sc.docs[sid], fresh=True)
     rec = (sc.proj_recs or sc.recs)[sid]
-    s = {"sid": sid + 1, "digest0": scenario.session_digest(sch), "steps": [], "_items": idxs}
+    s = {"sid": sid + 1, "digest0": scenario.session_digest(sch), "steps": [], "_items": idxs,
+         "_one_loader": one_loader}
+    shared = ZConfig.loader.ConfigLoader(sch) if one_loader else None
     for k, i in enumerate(idxs):
-        got, res = scenario.run_real(ws, sch, rec, sc.items[i])
+        fac = (lambda schema, ovs: shared) if (shared is not None and not sc.items[i]["opts"]) else None
+        got, res = scenario.run_real(ws, sch, rec, sc.items[i], loader_factory=fac)
         tree = project.spec_tree(res[0], rec, top=True) if res else None
         s["steps"].append({"op": "load", "scn": i + 1, "out": scenario.logged_outcome(tree, got),
                            "digest": scenario.session_digest(sch)})
@@ -95,7 +101,7 @@ def record_session(ws, sc, sid, idxs, mutate_after=()):
 def describe(sc):
     def f(s, clause, v):
         cls = {"clause": clause, "lenient": (v or {}).get("lenient")}
-        return {"schema_xml": schemas.to_xml(sc.docs[s["sid"] - 1]),
+        return {"schema_xml": schemas.to_xml(sc.docs[s["sid"] - 1]), "one_loader_object": s.get("_one_loader", False),
                 "loads": [sc.items[i]["files"] for i in s["_items"]],
                 "implementers_before": s["digest0"]["impl"],
                 "implementers_after": s["steps"][-1]["digest"]["impl"],
@@ -118,7 +124,7 @@ def run(chk):
                     "named '*', '+' and fixed; nested) x every text of <= %d lines over: %%import of 3 generated component "
                     "packages (one in another letter case), of a package without component, a plain module, a missing "
                     "package and a name with an empty dotted part; headers of every schema / package type and of the "
-                    "abstract type; then random sessions of <= 4 loads against one schema object; non-trivial = the text "
+                    "abstract type; then random sessions of <= 4 loads against one schema object (half of them through one reused ConfigLoader object); non-trivial = the text "
                     "has a %%import or a header" % maxlen)
         for sid in range(len(dd)):
             for n in range(0, maxlen + 1):
@@ -143,7 +149,7 @@ def run(chk):
             for _ in range(1000 if quick else 8000):
                 sid = rng.randrange(len(dd))
                 idxs = [rng.choice(by_sid[sid]) for _ in range(rng.randint(2, 4))]
-                sessions.append(record_session(ws, sc, sid, idxs))
+                sessions.append(record_session(ws, sc, sid, idxs, one_loader=rng.random() < 0.5))
         finally:
             ws.close()
         scenario.validate_sessions(chk, sc, sessions, describe(sc))
